@@ -34,6 +34,16 @@ CHECKS = {
          "States are histories of (package,file) visits executed on real checker sets built like initCheckers does. All sequences of length <=3 (hand-written checkers; <=4 thorough) and <=2 (rule-based; <=3 thorough) over a 21-file alphabet chosen from the files that exercise per-checker scratch state, each from a fresh set; an Eulerian tour of the complete digraph over the example files on one long-lived full set (every ordered pair as consecutive visits, long histories); every permutation and consecutive grouping of three package arguments x concurrency on the real binary. In every state the output for the last file must equal that of a fresh set on the file alone.",
          "No state abstraction or pruning is used (histories are not merged), so nothing is hidden by an incomplete fingerprint; the alphabet bounds what scratch state can be reached.",
          "DESIGN.md section 3, C03"),
+ "C02": ("model_checking",
+         "exhaustive exploration of environment answers: every dynamic map-range visit is a choice point whose key permutations are all executed on the real (build-time rewritten) code; identical ordered output demanded",
+         "vinstr rewrites every `range` over a map-typed expression (decided with go/types) in linter, checkers, analyzer and cmd into iteration over verifmcrt.MapKeys (canonical order, then the permutation the explorer dictates); /repo is untouched (go build -overlay). For every scenario (each example/odd program analysed by all checkers on a long-lived set; registry listing) the canonical execution records its choice points, then every permutation of every choice point (<=4 keys: all 23; more: rotations, reversal, adjacent swaps) is executed as one deviation (thorough: all pairs) and the ordered diagnostics incl. fixes must be identical; a replayed prefix that diverges is a hard error and the same plan is executed twice first. Conformance: the uninstrumented binaries are run 8x (24x thorough) with identical arguments and must print identical bytes. Goroutine timing is C04's subject.",
+         "Map ranges inside third-party modules are not rewritten (only the repeated real runs see them). Sites never reached with >=2 keys are listed in evidence (CLI flag binding loops are order-insensitive by inspection and not driven).",
+         "DESIGN.md section 3, C02"),
+ "C05": ("exploration",
+         "bounded-exhaustive program enumeration x all checkers with a reflection-based deep fingerprint of tree, type info, context and registry around every checker run, plus forward/reverse checker order on pristine trees",
+         "For every program of the corpus (examples, odd-syntax and build-constraint files, 1-deviation mutants, shadow family) the complete *ast.File graph (every field of every node, positions, slice backing arrays, comments, Obj/Scope), every types.Info map, every linter.Context field and the registered metadata/parameter values are hashed by reflection before and after checker runs (after every single checker for the example files; around the whole set with per-checker bisection otherwise); any difference is a write. Second leg: each program is analysed on two freshly parsed trees with the checker list in ascending and descending order and every checker must report the same diagnostics.",
+         "go/types objects are compared by identity (their interiors are lazily completed by go/types itself); FileSet.Base is excluded because harness workers share one file set; package-level variables of go-critic are not fingerprinted (covered indirectly by the order leg and by C03/C04).",
+         "DESIGN.md section 3, C05"),
 }
 
 PENDING = {
@@ -68,7 +78,7 @@ def main():
         "hooks": {
             "guard": "verif",
             "enable": "no hook lives in /repo: seams are added at build time with `go build -overlay` from files generated by /verif/mc (tag/guard name `verif`); /repo is compiled from its current working tree",
-            "baseline_off_cmd": "cd /repo && GOFLAGS=-mod=mod GOPROXY=off GOSUMDB=off GOTOOLCHAIN=local go test -vet=off -count=1 -timeout 25m ./...",
+            "baseline_off_cmd": "cd /repo && GOMODCACHE=/root/go/pkg/mod GOFLAGS=-mod=mod GOPROXY=off GOSUMDB=off GOTOOLCHAIN=local go test -vet=off -count=1 -timeout 25m ./...",
             "source_commits": [],
             "add_only": True,
         },
